@@ -3,3 +3,12 @@ package main
 import "os"
 
 func osWriteFile(path string, data []byte) error { return os.WriteFile(path, data, 0o644) }
+
+// smtSubset is the VC with only the quantifier-free hypotheses (the goal is unchanged).
+func (v *vc) smtSubset(ob *obligation) string {
+	saved := ob.goal
+	relaxed := v.smtRelaxed(&obligation{pos: ob.pos, goal: "true", cover: true})
+	// smtRelaxed ends with (assert <goal>)(check-sat); rebuild the tail for a validity query
+	cut := len(relaxed) - len("(assert true)\n(check-sat)\n")
+	return relaxed[:cut] + "(assert (not " + saved + "))\n(check-sat)\n"
+}
